@@ -233,9 +233,11 @@ const (
 )
 
 // isValidName reports whether name is valid.
-// It must be non-empty and not have any Unicode spaces or pluses.
+// It must be non-empty and not have any Unicode spaces, pluses,
+// or ASCII control characters (Open rejects any note containing one).
 func isValidName(name string) bool {
-	return name != "" && utf8.ValidString(name) && strings.IndexFunc(name, unicode.IsSpace) < 0 && !strings.Contains(name, "+")
+	return name != "" && utf8.ValidString(name) && strings.IndexFunc(name, unicode.IsSpace) < 0 && !strings.Contains(name, "+") &&
+		strings.IndexFunc(name, func(r rune) bool { return r < 0x20 }) < 0
 }
 
 // NewVerifier construct a new [Verifier] from an encoded verifier key.
